@@ -14,6 +14,9 @@ use p256::elliptic_curve::subtle::CtOption;
 use p256::EncodedPoint;
 use p256::PublicKey;
 
+/// Length in bytes of an affine coordinate of the curve.
+const COORDINATE_LENGTH: usize = 32;
+
 /// A verifier that can handle the
 /// [`JwsAlgorithm::ES256`](identity_verification::jws::JwsAlgorithm::ES256)
 /// algorithm.
@@ -49,15 +52,20 @@ impl Secp256R1Verifier {
 
     // Concatenate x and y coordinates as required by
     // EncodedPoint::from_untagged_bytes.
-    let public_key_bytes = jwu::decode_b64(&params.x)
-      .map_err(|err| {
-        SignatureVerificationError::new(SignatureVerificationErrorKind::KeyDecodingFailure).with_source(err)
-      })?
-      .into_iter()
-      .chain(jwu::decode_b64(&params.y).map_err(|err| {
-        SignatureVerificationError::new(SignatureVerificationErrorKind::KeyDecodingFailure).with_source(err)
-      })?)
-      .collect();
+    let x: Vec<u8> = jwu::decode_b64(&params.x).map_err(|err| {
+      SignatureVerificationError::new(SignatureVerificationErrorKind::KeyDecodingFailure).with_source(err)
+    })?;
+    let y: Vec<u8> = jwu::decode_b64(&params.y).map_err(|err| {
+      SignatureVerificationError::new(SignatureVerificationErrorKind::KeyDecodingFailure).with_source(err)
+    })?;
+    // Collecting into the fixed-size array below panics unless both coordinates have the expected length.
+    if x.len() != COORDINATE_LENGTH || y.len() != COORDINATE_LENGTH {
+      return Err(
+        SignatureVerificationError::new(SignatureVerificationErrorKind::KeyDecodingFailure)
+          .with_custom_message("invalid public key coordinate length"),
+      );
+    }
+    let public_key_bytes = x.into_iter().chain(y).collect();
 
     // The JWK contains the uncompressed x and y coordinates, so we can create the
     // encoded point directly without prefixing an SEC1 tag.
